@@ -226,6 +226,14 @@ def validation(chk, dprog, cfg):
     errs = [bb for bb, t in b.calls() if b.callee_name(t).endswith("syn::error::Error::new")]
     chk.expect(len(ctp) == 1 and any(b.dominates(ctp[0][0], e) for e in errs), "R20.3", "unbound-parameter-check", b.where(),
                "contains_type_param consulted: %d; an Err is constructed under it: %s" % (len(ctp), any(b.dominates(ctp[0][0], e) for e in errs) if ctp else False), cfg)
+    # a predicate bounds the parameter only if its bounded type IS the parameter (`T: ..`), not a path rooted at it (`T::X: ..`)
+    cb = dprog.body(dprog.fn("attr::BoundsAttr::contains_type_param"))
+    names = set()
+    for p_ in cd.closure_tree(dprog, cb.path):
+        bb_ = dprog.body(p_)
+        names |= {bb_.callee_name(t).split("::")[-1] for _, t in bb_.calls()}
+    chk.expect("get_ident" in names and not ({"first", "last"} & names), "R20.3", "contains_type_param:whole-path-is-the-ident", cb.where(),
+               "compares Path::get_ident() with the parameter: %s; looks at single segments: %s" % ("get_ident" in names, sorted({"first", "last"} & names)), cfg)
     # ScaleInfoAttr::parse
     cands = [p for p in dprog.fns if p.startswith("<scale_info_derive::attr::ScaleInfoAttr as syn::parse::Parse>::parse")]
     if cands:
